@@ -189,6 +189,7 @@ def run(facts, tr, rep):
         # deposit: written value is min(_, cap)
         gd = graph(dp)
         nd = 0
+        cap_fields = set()      # fields of the budget the deposit caps the balance with (the configured maximum)
         for w in words:
             for (b, cs, m) in sites(facts, tr, w):
                 if m == "load":
@@ -209,10 +210,42 @@ def run(facts, tr, rep):
                 if not vals:
                     continue
                 nd += 1
+                for v in vals:
+                    for lf in leaves(v):
+                        lf = peel(lf)
+                        if lf[0] == "call" and tr.call_of(lf).def_ in ("core::cmp::Ord::min", "core::cmp::min"):
+                            cm_ = tr.call_of(lf)
+                            for a_ in cm_.args:
+                                cap_fields |= {x[2] for x in tr.walk(tr.expand(tr.operand(cm_.g.b, a_, cm_.loc), upvars=True), limit=120)
+                                               if x[0] == "field" and x[3] == adt_def and isinstance(x[2], str)}
                 ok = all(_is_capped(tr, v) for v in vals)
                 rep.ob("C08.CAP", "%s|%s|%s" % (dp.crate.name, dp.def_, m), ok, cs.where(),
                        "deposited balance is min(_, maximum)" if ok else "deposited balance is not capped by min(_, maximum)")
         rep.floor("C08.deposit-writes:" + adt_def.split("::")[-1], nd, 1)
+        # INIT: in every constructor the initial balance is bounded by the same configured maximum: either it is
+        # computed from the very parameters the maximum is computed from, or it is min(_, that)
+        from ..util import agg_sites
+        ninit = 0
+        for (ab, i, j, rv) in agg_sites(facts, adt_def):
+            for w in words:
+                if w[1] not in rv["fields"]:
+                    continue
+                ninit += 1
+                rep.saw(ab)
+                init = tr.expand(tr.operand(ab, rv["ops"][rv["fields"].index(w[1])], (i, j)))
+                cap_params = set()
+                for fn_, op_ in zip(rv["fields"], rv["ops"]):
+                    if fn_ == w[1] or any(fn_ == w2[1] for w2 in words):
+                        continue
+                    if fn_ not in cap_fields:
+                        continue
+                    cap_params |= {x for x in tr.walk(tr.expand(tr.operand(ab, op_, (i, j))), limit=200) if x[0] == "param"}
+                ok = _init_bounded(tr, init, cap_params)
+                rep.ob("C08.INIT", "%s|%s|init.%s" % (ab.crate.name, ab.def_, w[1]), ok, "%s:%d" % (ab.span["file"], ab.blocks[i]["stmts"][j]["span"]["line"]),
+                       "the initial balance is bounded by the configured maximum" if ok else
+                       "the initial balance is computed from a different parameter than the maximum and is not capped by it: a budget "
+                       "configured with initial > maximum starts above its maximum and grants retries that were never funded")
+        rep.floor("C08.init-sites:" + adt_def.split("::")[-1], ninit, 1)
 
 
 def _ret_nodes(tr, body):
@@ -244,6 +277,48 @@ def _returned_values(tr, body):
                     else:
                         out.append(n)
     return out
+
+
+def _init_bounded(tr, node, cap_params, depth=0):
+    """every origin of the initial balance is a parameter the maximum is computed from, a zero, or min(_, such)"""
+    if depth > 8:
+        return False
+    for lf in leaves(node):
+        lf = peel(lf)
+        while lf[0] == "cast" or (lf[0] == "field" and peel(lf[1])[0] == "binop"):
+            lf = peel(lf[2] if lf[0] == "cast" else lf[1])
+        if lf[0] == "param":
+            if lf in cap_params:
+                continue
+            return False
+        if lf[0] == "const":
+            if str(lf[3] if len(lf) > 3 else lf[1]) in ("0",):
+                continue
+            return False
+        if lf[0] == "binop" and lf[1].startswith("Mul"):
+            # scaling by a constant
+            a, b = peel(lf[2]), peel(lf[3])
+            if b[0] == "const" and _init_bounded(tr, a, cap_params, depth + 1):
+                continue
+            if a[0] == "const" and _init_bounded(tr, b, cap_params, depth + 1):
+                continue
+            return False
+        if lf[0] == "call":
+            c = tr.call_of(lf)
+            args = [tr.expand(tr.operand(c.g.b, a, c.loc)) for a in c.args]
+            if c.def_ in ("core::cmp::Ord::min", "core::cmp::min") and len(args) == 2:
+                if _init_bounded(tr, args[0], cap_params, depth + 1) or _init_bounded(tr, args[1], cap_params, depth + 1):
+                    continue
+                return False
+            if atomic_method(c) == "new" and args:
+                if _init_bounded(tr, args[0], cap_params, depth + 1):
+                    continue
+                return False
+            if c.name in ("saturating_mul", "into", "from") and args and _init_bounded(tr, args[0], cap_params, depth + 1):
+                continue
+            return False
+        return False
+    return True
 
 
 def _is_capped(tr, node):
